@@ -61,6 +61,8 @@ let gen ty pat n (seed : int64) : int64 array =
       | 7 -> dbits (float_of_int (Int64.to_int (urem r 1000003L)))
       | 9 -> (* most elements equal the maximum, a few smaller ones *)
         if Int64.to_int (urem r 64L) = 0 then 0x3FF0000000000000L else 0x4000000000000000L
+      | 10 -> (* strided two-valued input on which a partition pass leaves both walls in place *)
+        if i > 0 && (i mod 40 < 16 || i mod 40 >= 32) then 0x4000000000000000L else 0x3FF0000000000000L
       | _ -> !explicit.(i)
     else
       match pat with
@@ -73,6 +75,7 @@ let gen ty pat n (seed : int64) : int64 array =
       | 6 -> urem r 16L
       | 7 -> urem r 1000003L
       | 9 -> if Int64.to_int (urem r 64L) = 0 then 5L else 9L
+      | 10 -> if i > 0 && (i mod 40 < 16 || i mod 40 >= 32) then 2L else 1L
       | _ -> !explicit.(i))
 
 (* ---------- machine operators, written as in the C sources ---------- *)
@@ -171,7 +174,8 @@ let () =
       | ["ranges"; start; stop; workers] ->
         let rs = loopaccum_ranges (nat_of_int (int_of_string start)) (nat_of_int (int_of_string stop)) (nat_of_int (int_of_string workers)) in
         print_string "g"; List.iter (fun (a, b) -> Printf.printf " %d:%d" (int_of_nat a) (int_of_nat b)) rs; print_newline ()
-      | ["sort"; which; pat; n; seed; p1; p2; fuel; wfuel] ->
+      | [("sort" | "sortold") as cmd; which; pat; n; seed; p1; p2; fuel; wfuel] ->
+        let old = (cmd = "sortold") in
         let n = int_of_string n and pat = int_of_string pat in
         let ty = if which = "aligned" then 'u' else 'd' in
         let arr = gen ty pat n (Int64.of_string seed) in
@@ -180,13 +184,35 @@ let () =
         let res =
           match which with
           | "merge" -> Some (mergesort leb oob (base_sort ty) a0 (n_of_int n))
-          | "qt" -> qsort_inner leb oob (n_of_int n) (base_sort ty) (qt_params (n_of_int (int_of_string p1)))
+          | "qt" -> (if old then qsort_inner_old else qsort_inner) leb oob (n_of_int n) (base_sort ty) (qt_params (n_of_int (int_of_string p1)))
                       (nat_of_int (int_of_string fuel)) (nat_of_int (int_of_string wfuel)) a0 N0 (n_of_int n)
-          | _ -> qsort_inner leb oob (n_of_int n) (base_sort ty) (qutil_params (n_of_int (int_of_string p1)) (n_of_int (int_of_string p2)))
+          | _ -> (if old then qsort_inner_old else qsort_inner) leb oob (n_of_int n) (base_sort ty) (qutil_params (n_of_int (int_of_string p1)) (n_of_int (int_of_string p2)))
                    (nat_of_int (int_of_string fuel)) (nat_of_int (int_of_string wfuel)) a0 N0 (n_of_int n) in
         (match res with
          | None -> print_endline "s outoffuel"
          | Some a -> Printf.printf "s ok %016Lx %d\n" (hash_arr a n) (if sorted_arr ty a n then 1 else 0))
+      | ["wallstrace"; which; pat; n; seed; p1; p2; passes] ->
+        (* diagnostic: the (leftwall, rightwall) sequence of the partitioner passes of the top-level call *)
+        let n = int_of_string n and pat = int_of_string pat in
+        let ty = if which = "aligned" then 'u' else 'd' in
+        let arr = gen ty pat n (Int64.of_string seed) in
+        let a0 = of_list (Array.to_list arr) in
+        let leb = leb_of ty in
+        let prm = if which = "qt" then qt_params (n_of_int (int_of_string p1))
+          else qutil_params (n_of_int (int_of_string p1)) (n_of_int (int_of_string p2)) in
+        let len = n_of_int n in
+        (match trimedian leb oob len a0 N0 len with
+         | None -> print_endline "w none"
+         | Some a1 ->
+           let pivot = aget oob a1 (n_of_int (n / 2)) in
+           let thresh = int_of_n (prm.p_thresh len) in
+           let rec go a lw rw k acc =
+             if k = 0 || not (lw < rw && rw - lw > thresh) then acc
+             else match partitioner leb oob len prm a (n_of_int lw) (n_of_int (rw - lw + 1)) pivot with
+               | None -> acc ^ " none"
+               | Some ((a', l), r) -> let lw' = int_of_n l + lw and rw' = int_of_n r + lw in
+                 go a' lw' rw' (k - 1) (acc ^ Printf.sprintf " %d:%d" lw' rw') in
+           print_endline ("w" ^ go a1 0 (n - 1) (int_of_string passes) ""))
       | "ap" :: nworkers :: evs ->
         let nw = int_of_string nworkers in
         let parse tok =
